@@ -329,7 +329,7 @@ func init() {
 	explore.Register(&explore.Check{
 		ID:         "C12",
 		Level:      "exploration",
-		ShardDepth: 4,
+		ShardDepth: 5,
 		Body:       body,
 		Rule: "(A) every string of length <= 2 (quick) / <= 3 (thorough) over {space tab \" \\ a LF CR é 0xFF = : ; # [ ] NBSP ,} plus 4095/4096/4098/10200/65536/90000-byte strings, used as a string option, a slice element (alone / second), a map value, a map key (only keys the key:value syntax can express), a string with a default tag; " +
 			"(B) 23 typed fields (incl. integer-keyed maps with base 16 / 36 and a slice with two default tags) (ints in bases 2/10/16/36 at their limits, uints, float32/64 incl. max, denormal, +-Inf, -0, NaN, bool, []bool, Duration limits, *int, *string, Marshaler/Unmarshaler, []int, map[string]int, map[int]string, map[string]bool, []uint8 base 16) each with its interesting values, and all fields set at once; " +
@@ -338,7 +338,7 @@ func init() {
 		Assumptions:  []string{"values are stored into the option struct after an initial ParseArgs(nil), as a program does before saving its configuration", "map keys restricted exactly as the statement restricts them"},
 		RequiredHits: []string{"usage:string", "usage:map-key", "usage:map-value", "usage:slice-element", "usage:all-fields", "usage:typed:float32", "usage:typed:int8/base36", "writer-state"},
 		Bound:        [2]string{"strings <= 2", "strings <= 3"},
-		BudgetS:      [2]int{100, 1500},
+		BudgetS:      [2]int{170, 1500},
 	})
 }
 
